@@ -433,6 +433,19 @@ def k_parse(prop, tier, extra=()):
     return r
 
 
+def parse_differs(src, tol=0, skip=()):
+    """True when model and implementation already disagree on the PARSE of
+    `src` (then a difference in views / edits / matches on that document is
+    K-parse's business, not that of the later stage)."""
+    try:
+        line = 'P %d %s %s' % (tol, ','.join(cps(x) for x in skip) if skip else '-', cps(src))
+        a = _run_driver_chunk([line])[0]
+        b = _impl_parse_chunk([(src, tol, tuple(skip))])[0]
+        return a != b
+    except Exception:      # noqa
+        return False
+
+
 # ------------------------------------------------- in-Coq cross-check sample
 
 def sexp_parse(s):
